@@ -388,7 +388,12 @@ func c19Read(c *fw.Case) {
 	if c.No%3 == 1 {
 		qargs = []interface{}{int64(rng.Intn(100)), "arg", 1.5, true}[:1+rng.Intn(4)]
 	}
+	twice := rng.Intn(2) == 0
 	if !c.GuardFail("readsql", "ReadSQL", func() {
+		if twice {
+			// the same option values (Query, Coerce, Precision) configure two reads; the second result is examined
+			_ = qframe.ReadSQL(tx, fns...)
+		}
 		if qargs != nil {
 			res = qframe.ReadSQLWithArgs(tx, qargs, fns...)
 		} else {
